@@ -962,25 +962,34 @@ Lemma nested_abort_publishes_undurable :
   published s = [set_seq 1 e] /\ db_log (durable s) = [] /\ flat_from 0 [OBegin; OBegin; ORecord e; OAbort; OCommit] = false.
 Proof. vm_compute. auto. Qed.
 
-(* the handlers that record AFTER their transaction: a crash between the two commits leaves the status without event;
-   those that record BEFORE it: a crash leaves the event without the status *)
-Lemma after_txn_window ws evs tag :
-  Forall (fun w => wr_tag w = tag) ws -> ws <> [] -> evs <> [] ->
-  let s := trun true init_tstate (firstn (2 + length ws) (handler_ops AfterTxn ws evs) ++ [OCrash]) in
-  has_write_tag tag (durable s) = true /\ db_log (durable s) = [].
+(* the handlers that record AFTER their transaction: a crash between the two commits leaves the status without its
+   event; those that record BEFORE it: a crash leaves the event without the status.  (Not completions by the regular
+   task- or stage-completion step: outside C13's atomicity clause; recorded as an observation.) *)
+Lemma firstn_succ_mid {A} (l : list A) c r : firstn (S (length l)) (l ++ [c] ++ r) = l ++ [c].
+Proof. induction l as [|a l IH]; simpl; [reflexivity|]. f_equal. exact IH. Qed.
+
+Lemma after_txn_window st :
+  lstep_pos st = AfterTxn -> snd (record_of 5 st) <> [] -> fst (record_of 5 st) <> [] ->
+  Forall (fun w => wr_tag w = 5) (fst (record_of 5 st)) ->
+  exists k,
+    has_write_tag 5 (durable (trun true init_tstate (firstn k (lstep_ops 5 st) ++ [OCrash]))) = true
+    /\ db_log (durable (trun true init_tstate (firstn k (lstep_ops 5 st) ++ [OCrash]))) = [].
 Proof.
-  intros Hws Hnw Hne. unfold handler_ops.
+  intros Hpos Hev Hws Htag. unfold lstep_ops. rewrite Hpos. unfold handler_ops.
+  exists (2 + length (fst (record_of 5 st)))%nat.
+  remember (fst (record_of 5 st)) as ws. remember (snd (record_of 5 st)) as evs.
   assert (Hfirst : firstn (2 + length ws) (OBegin :: map OWrite ws ++ [OCommit] ++ map ORecord evs)
                    = block_ops (map IWrite ws, FCommit)).
-  { unfold block_ops. simpl fst. simpl snd. simpl. f_equal. rewrite map_map. simpl.
-    rewrite app_assoc. rewrite firstn_app.
-    replace (length (map OWrite ws ++ [OCommit])) with (S (length ws)) by (rewrite app_length, map_length; simpl; lia).
-    rewrite Nat.sub_diag. simpl. rewrite app_nil_r.
-    rewrite firstn_all2; auto. rewrite app_length, map_length. simpl. lia. }
-  rewrite Hfirst. rewrite trun_app, run_block by exact quiescent_init. simpl.
-  rewrite apply_items_log, apply_items_writes. simpl.
+  { unfold block_ops. cbn [fst snd fate_op]. change (2 + length ws)%nat with (S (S (length ws))).
+    rewrite firstn_cons. f_equal. rewrite map_map. cbn [item_op].
+    replace (S (length ws)) with (S (length (map OWrite ws))) by now rewrite map_length.
+    apply firstn_succ_mid. }
+  rewrite Hfirst, trun_app, run_block by exact quiescent_init. simpl.
+  unfold has_write_tag. rewrite apply_items_log, apply_items_writes. simpl.
   assert (Hw : item_writes (map IWrite ws) = ws).
-  { unfold item_writes. rewrite map_map. simpl. induction ws; simpl; auto. f_equal. apply IHws.
-    - now inversion Hws. - admit_free_dummy. }
-  admit_free_dummy2.
+  { unfold item_writes. rewrite map_map. simpl. clear. induction ws; simpl; congruence. }
+  assert (He : forall d, snd (db_apply_items d (map IWrite ws)) = []).
+  { clear. induction ws; intros d; simpl; auto. }
+  rewrite Hw, He. split; auto.
+  apply existsb_map_tag_w; auto.
 Qed.
